@@ -24,7 +24,7 @@ mod assignment_pre_conversion_validation_rules {
     use rusty_parser::AsBareName;
 
     use super::*;
-    use crate::core::LintError;
+    use crate::core::{IntoTypeQualifier, LintError};
 
     pub fn validate(
         ctx: &mut LinterContext,
@@ -40,10 +40,15 @@ mod assignment_pre_conversion_validation_rules {
         pos: Position,
     ) -> Result<(), LintErrorPos> {
         if let Expression::Variable(var_name, _) = input {
-            if ctx
-                .names
-                .contains_const_recursively(var_name.as_bare_name())
-            {
+            let bare_name = var_name.as_bare_name();
+            // a variable of that name (a parameter, a local, a SHARED global) hides the constant,
+            // exactly as it does when the name is read
+            let is_variable = ctx.names.get_extended_var_recursively(bare_name).is_some()
+                || ctx
+                    .names
+                    .get_compact_var_recursively(bare_name, var_name.qualify(ctx))
+                    .is_some();
+            if !is_variable && ctx.names.contains_const_recursively(bare_name) {
                 Err(LintError::DuplicateDefinition.at_pos(pos))
             } else {
                 Ok(())
